@@ -44,6 +44,13 @@ pub fn outsider_core() -> CryptoCore {
     core_with(&aead::AES_256_GCM, &[0x44; 32], false, 0)
 }
 
+pub fn set_seen(core: &mut CryptoCore, slot: usize, seen: [u8; 12]) {
+    core.keys[slot].seen_nonce = Nonce(seen);
+}
+pub fn next_min(core: &CryptoCore, slot: usize) -> u128 {
+    nonce_val(core.keys[slot].next_min_nonce.as_bytes())
+}
+
 /// a core whose four slots hold independent model keys; `keyed` is the slot that gets `bytes`
 fn core_with(algo: &'static aead::Algorithm, bytes: &[u8; 32], half: bool, current: usize) -> CryptoCore {
     let other = [0x11u8; 32];
